@@ -1,6 +1,7 @@
 package vc
 
 import (
+	"go/types"
 	"strings"
 
 	"golang.org/x/tools/go/ssa"
@@ -77,6 +78,14 @@ func init() {
 		"(binary.bigEndian).Uint32":       encGet("BE32"),
 		"(binary.bigEndian).PutUint16":    encPut("BE16"),
 		"(binary.bigEndian).Uint16":       encGet("BE16"),
+		"(*badger.DB).View":    applyOnceTxn(false),
+		"(*badger.DB).Update":  applyOnceTxn(true),
+		"(*badger.Item).Value": applyOnceValue,
+		"atomic.AddInt64":      atomicAdd,
+		"atomic.AddInt32":      atomicAdd,
+		"atomic.AddUint64":     atomicAdd,
+		"atomic.LoadInt64":     atomicLoad,
+		"atomic.LoadInt32":     atomicLoad,
 		"strconv.Itoa": func(f *Frame, c *ssa.CallCommon, a []Val, st *State) Val {
 			return Val{T: App("itoa", SString, a[0].T)}
 		},
@@ -183,3 +192,56 @@ func endianName(kind string) string {
 	return "bigEndian"
 }
 func widthName(kind string) string { return "Uint" + kind[2:] }
+
+// db.View(fn) / db.Update(fn): run fn exactly once in a fresh transaction and return its error
+// (Update commits iff fn returns nil: the commit itself is ghost state of the kv prelude).
+func applyOnceTxn(update bool) intrinsic {
+	return func(f *Frame, c *ssa.CallCommon, a []Val, st *State) Val {
+		u := f.u
+		fn := a[len(a)-1]
+		txn := u.newAddr(st, "txn")
+		if gs, ok := st.ghost["$txnUpdate"]; ok {
+			st.ghost["$txnUpdate"] = u.defs.Define("txnupd", Store(gs, txn, BoolLit(update)))
+		}
+		if r, ok := f.callFnValue(fn, []Val{{T: txn}}, st, c.Signature(), "txnbody"); ok {
+			u.AssumedUse["(*badger.DB).View/Update run their function argument exactly once in a fresh transaction (closure inlined)"] = true
+			return r
+		}
+		u.abstractf("%s: transaction body passed to View/Update is not a visible closure: heap havoced", u.name)
+		u.havocAll(st)
+		return resultVal(u, st, c.Signature(), "r_txn")
+	}
+}
+
+// item.Value(fn): fn(value bytes of the item) exactly once, returning its error.
+func applyOnceValue(f *Frame, c *ssa.CallCommon, a []Val, st *State) Val {
+	u := f.u
+	item := a[0]
+	fn := a[len(a)-1]
+	// the value: a byte slice determined by the item (spec function itemVal in the kv prelude)
+	val := u.defs.Fresh("itemval", SSlice)
+	u.assume(st, typeFacts(val, types.NewSlice(types.Typ[types.Uint8])))
+	u.assume(st, Eq(App("s_arr", SInt, val), App("item_val_arr", SInt, item.T)))
+	u.assume(st, Eq(App("s_off", SInt, val), IntLit(0)))
+	if r, ok := f.callFnValue(fn, []Val{{T: val, Ty: types.NewSlice(types.Typ[types.Uint8])}}, st, c.Signature(), "valuebody"); ok {
+		u.AssumedUse["(*badger.Item).Value runs its function argument exactly once on the item's value (closure inlined)"] = true
+		return r
+	}
+	u.abstractf("%s: function passed to Item.Value is not a visible closure: heap havoced", u.name)
+	u.havocAll(st)
+	return resultVal(u, st, c.Signature(), "r_value")
+}
+
+func atomicAdd(f *Frame, c *ssa.CallCommon, a []Val, st *State) Val {
+	u := f.u
+	elem := c.Args[0].Type().Underlying().(*types.Pointer).Elem()
+	cur := f.load(a[0], elem, st)
+	nv := u.defs.Define("atomic_add", App("+", SInt, cur.T, a[1].T))
+	f.store(a[0], Val{T: nv}, elem, st)
+	return Val{T: nv}
+}
+
+func atomicLoad(f *Frame, c *ssa.CallCommon, a []Val, st *State) Val {
+	elem := c.Args[0].Type().Underlying().(*types.Pointer).Elem()
+	return f.load(a[0], elem, st)
+}
